@@ -264,6 +264,52 @@ func exprIso(an *NilAnalysis, a, b ssa.Value, fa, fb string, depth int) bool {
 	return false
 }
 
+// twinThroughParam: helper h writes through its pointer parameter par; in root (and its helpers) every block that
+// calls h passes the addresses of exactly Item.StartAt and Item.EndAt (one call taking them from a table of
+// both, or two calls that differ in nothing else): both boundaries go through the same code.
+func twinThroughParam(p *Prog, root, h *ssa.Function, par *ssa.Parameter) bool {
+	k := -1
+	for i, q := range h.Params {
+		if q == par {
+			k = i
+		}
+	}
+	if k < 0 {
+		return false
+	}
+	found := false
+	for _, b := range p.helperBlocks(root) {
+		fs := strset{}
+		var first *ssa.Call
+		for _, ins := range b.Instrs {
+			c, ok := ins.(*ssa.Call)
+			if !ok || c.Call.StaticCallee() != h || k >= len(c.Call.Args) {
+				continue
+			}
+			for _, lc := range locsOf(c.Call.Args[k], 0) {
+				fs.add(lc[0])
+			}
+			if first == nil {
+				first = c
+			} else {
+				for i := range c.Call.Args {
+					if i != k && c.Call.Args[i] != first.Call.Args[i] {
+						return false
+					}
+				}
+			}
+		}
+		if first == nil {
+			continue
+		}
+		if !(fs["Item.StartAt"] && fs["Item.EndAt"] && len(fs) == 2) {
+			return false
+		}
+		found = true
+	}
+	return found
+}
+
 // ruleTwinUpdate: in each named function, every non-constant store to StartAt has a twin store to
 // EndAt in the same block through the same item, with an isomorphic expression (and vice versa).
 func ruleTwinUpdate(names ...string) func(p *Prog, l *Ledger, tier string) {
@@ -306,6 +352,8 @@ func ruleTwinUpdate(names ...string) func(p *Prog, l *Ledger, tier string) {
 							fs.add(lc[0])
 						}
 						if fs["Item.StartAt"] && fs["Item.EndAt"] && len(fs) == 2 {
+							both = append(both, st)
+						} else if par, ok := st.Addr.(*ssa.Parameter); ok && b.Parent() != fn && twinThroughParam(p, fn, b.Parent(), par) {
 							both = append(both, st)
 						}
 						continue
@@ -1391,6 +1439,9 @@ func builderJoin(f *ssa.Function, needSep bool) (bool, string) {
 			return false, ""
 		}
 		c, ok := isBuilderCall(instrOf(r.Results[0]), "String")
+		if !ok && singleElementFastPath(r) {
+			continue // a list of one element is its only element, whatever the separator
+		}
 		if !ok || ret != nil {
 			return false, ""
 		}
@@ -1483,6 +1534,61 @@ func builderJoin(f *ssa.Function, needSep bool) (bool, string) {
 		return true, "writes every element into a strings.Builder, with a constant separator before each but the first (decided by the loop counter)"
 	}
 	return true, "writes every element into a strings.Builder"
+}
+
+// singleElementFastPath: the return hands back (the text of) element 0 of a list under a dominating test that the
+// list has exactly one element.
+func singleElementFastPath(r *ssa.Return) bool {
+	var elem0 func(v ssa.Value, depth int) string
+	elem0 = func(v ssa.Value, depth int) string {
+		if v == nil || depth > 5 {
+			return ""
+		}
+		switch x := v.(type) {
+		case *ssa.IndexAddr:
+			if c, ok := constInt(x.Index); ok && c == 0 {
+				if u, ok := x.X.(*ssa.UnOp); ok && u.Op == token.MUL {
+					return cellPath(u.X, 0)
+				}
+			}
+			return ""
+		case *ssa.UnOp:
+			return elem0(x.X, depth+1)
+		case *ssa.FieldAddr:
+			return elem0(x.X, depth+1)
+		case *ssa.Field:
+			return elem0(x.X, depth+1)
+		case *ssa.Call:
+			if len(x.Call.Args) == 1 && !x.Call.IsInvoke() {
+				return elem0(x.Call.Args[0], depth+1)
+			}
+		}
+		return ""
+	}
+	list := elem0(r.Results[0], 0)
+	if list == "" {
+		return false
+	}
+	for _, dc := range dominatingConds(r.Block()) {
+		bo, ok := dc.cond.(*ssa.BinOp)
+		if !ok || bo.Op != token.EQL || !dc.taken {
+			continue
+		}
+		if one, ok := constInt(bo.Y); !ok || one != 1 {
+			continue
+		}
+		c, ok := bo.X.(*ssa.Call)
+		if !ok {
+			continue
+		}
+		if bi, ok := c.Call.Value.(*ssa.Builtin); !ok || bi.Name() != "len" {
+			continue
+		}
+		if u, ok := c.Call.Args[0].(*ssa.UnOp); ok && u.Op == token.MUL && cellPath(u.X, 0) == list {
+			return true
+		}
+	}
+	return false
 }
 
 // builderFilledBy: h has one loop, and on every trip writes a non-constant string into the builder it
